@@ -1,6 +1,7 @@
 CONSTANTS
   Files <- F1
   NewFile = "f3"
+  SubFile = "g1"
   TempT = "tt"
   Keys <- K1
   Vals <- V5
